@@ -15,6 +15,7 @@ mod loopparse;
 mod looprun;
 mod paint;
 mod pool;
+mod selftest;
 
 use std::{path::Path, time::Duration};
 
@@ -32,8 +33,34 @@ const STUB_POOL: &[&str] = &[
     "std::sync::Mutex, mpsc::sync_channel(0), AtomicUsize, thread::park/unpark, thread::Builder::spawn, process::abort — dsim models (validated by dsim's own tests against documented std semantics)",
 ];
 
-fn known_for<C: Case>(_prop: Prop) -> Vec<Known<C>> {
-    Vec::new()
+/// Open known findings of this property, as listed in the committed
+/// `known_findings.json` (never written at run time). Each open entry names a
+/// `key`; the predicate that recognises it lives here in code, so that any
+/// *other* violation of the same property is still reported. There is no
+/// open finding at present: the three defects found were repaired (`fixed:`
+/// entries suppress nothing).
+fn known_for<C: Case>(prop: Prop) -> Vec<Known<C>> {
+    let path = batch::verif_root().join("known_findings.json");
+    let Ok(v) = batch::read_json(&path) else { return Vec::new() };
+    let mut out = Vec::new();
+    for e in v["open"].as_array().cloned().unwrap_or_default() {
+        if e["property"].as_str() != Some(prop.id()) {
+            continue;
+        }
+        let key = e["key"].as_str().unwrap_or("").to_string();
+        let what = e["what"].as_str().unwrap_or("").to_string();
+        let class = e["class"].as_str().unwrap_or("").to_string();
+        let needle = e["scenario_contains"].as_str().unwrap_or("").to_string();
+        println!("KNOWN-FINDING: property={prop} {what}");
+        out.push(Known {
+            key,
+            what,
+            matches: Box::new(move |scn: &C, v: &common::Violation| {
+                v.class == class && (needle.is_empty() || scn.to_json().to_string().contains(&needle))
+            }),
+        });
+    }
+    out
 }
 
 fn finish<C: Case>(
@@ -119,6 +146,7 @@ fn check_pool(prop: Prop, tier: Tier, seed: u64) -> i32 {
     };
     let known = known_for::<pool::PoolScn>(prop);
     let res = batch::run_batch::<pool::PoolScn>(&cfg, &known);
+    let saturation = pool_saturation(seed, tier);
     let meta = EvidenceMeta {
         prop,
         tier,
@@ -132,9 +160,51 @@ fn check_pool(prop: Prop, tier: Tier, seed: u64) -> i32 {
         ],
         components_real: REAL_POOL.to_vec(),
         components_stub: STUB_POOL.to_vec(),
-        extra: json!({}),
+        extra: json!({ "saturation_of_smallest_cases": saturation }),
     };
     finish(prop, tier, seed, res, meta)
+}
+
+/// Coverage measure for the smallest cases (one broadcast, n = 1 and n = 2,
+/// no faults): distinct interleavings (per-object operation-order
+/// signatures) reached after 250, 500, … runs under seeded random / PCT /
+/// starvation schedules. The count is expected to flatten out — evidence of
+/// coverage of the small cases, not a claim of exhaustion.
+fn pool_saturation(seed: u64, tier: Tier) -> serde_json::Value {
+    let total: u64 = if tier == Tier::Thorough { 32_000 } else { 4_000 };
+    let mut out = serde_json::Map::new();
+    for n in [1usize, 2] {
+        let scn = pool::PoolScn {
+            broadcasts: vec![pool::Bcast { n, api: pool::Api::Broadcast, panics: Vec::new() }],
+            spurious_parks: Vec::new(),
+        };
+        let mut seen = std::collections::HashSet::new();
+        let mut seen_orders = std::collections::HashSet::new();
+        let mut curve = Vec::new();
+        let mut next_mark = 250u64;
+        for i in 0..total {
+            let run_seed = dsim::rng::mix(&[seed, 0x5A7, n as u64, i]);
+            let mut rng = dsim::rng::Rng::new(run_seed);
+            let strategy = batch::strategy_for(&mut rng, &scn);
+            let (r, _) = batch::one_run(&scn, run_seed, strategy);
+            if r.failure.is_none() {
+                seen.insert(r.sync_sig);
+                // The complete interleaving: which thread performed the
+                // k-th recorded operation, for every k.
+                let mut h = dsim::event::Fnv::default();
+                for e in &r.events {
+                    h.u64(e.tid as u64);
+                }
+                seen_orders.insert(h.finish());
+            }
+            if i + 1 == next_mark || i + 1 == total {
+                curve.push(json!({"runs": i + 1, "distinct_sync_order_signatures": seen.len(), "distinct_total_orders": seen_orders.len()}));
+                next_mark *= 2;
+            }
+        }
+        out.insert(format!("one_broadcast_n={n}"), json!({ "runs_vs_distinct_interleavings": curve }));
+    }
+    serde_json::Value::Object(out)
 }
 
 const REAL_LOOP: &[&str] = &[
@@ -407,6 +477,7 @@ fn main() {
             }
         }
         Some("selfcheck") => cmd_selfcheck(),
+        Some("selftest-oracles") => selftest::run(),
         Some("replay") => match args.get(2) {
             Some(p) => cmd_replay(Path::new(p)),
             None => {
